@@ -7,7 +7,10 @@ to a depth, seeded random long ones) and enumerated sort cases (element
 sequences x comparators x ways the list was built) are executed on the real
 table library; ListTrace.tla validates every result, the list read back and a
 battery of concat/unpack calls against ListLib (sort results are validated,
-not compared: SortOK)."""
+not compared: SortOK).  Histories also assign numeric keys outside the list
+(0, negative, 1.5, 2^40, keys beyond a hole: maxn is the largest positive
+numeric key of the whole table) and build lists longer than the registry
+(concat compared by length + hashes, ListLib!ConcatDigest)."""
 import itertools, json, os, random, time
 import vlib
 
@@ -24,7 +27,11 @@ def case_key(tr, b):
     op = ev["op"]
     arr_pre = tr["ev"][pos - 2]["arr"] if pos > 1 else 0
     tail_pre = arr_pre - npre          # nil slots the raw array kept behind the list before this call
-    if op == "rem_end" and tail_pre > 0 and why in ("res", "rd", "len", "getn", "maxn"):
+    if why == "maxn" and det["exp"] != ["n", det["n"]]:
+        return "C18:maxn:numeric-key-outside-the-list-ignored"     # the expected maximum is a key outside the list
+    if op == "sort" and ev["cmp"]["kind"] == "ltnil" and why == "sort:error" and "function expected" in ev.get("msg", ""):
+        return "C18:sort:explicit-nil-comparator-rejected"
+    if op == "rem_end" and tail_pre > 0 and why in ("res", "rd", "len", "getn"):
         return "C18:remove:trailing-nil-in-array"
     if op == "sort" and tail_pre > 0:
         nil_called = any(c[0] == ["nil"] or c[1] == ["nil"] for c in ev["calls"])
@@ -36,6 +43,10 @@ def case_key(tr, b):
         q = ev["q"][det["k"] - 1]
         exp = det["exp"]
         n = exp["n"]
+        if q["q"] == "concatd":
+            if q["err"] and not exp["err"] and "registry overflow" in q.get("msg", ""):
+                return "C18:concat:long-list-registry-overflow"
+            return "C18:concat:long-list:%s" % ("unexpected-error" if q["err"] else ("missing-error" if exp["err"] else "wrong-digest"))
         if q["q"] == "concat":
             # the argument region outside the list: i < 1, i > n or j > n given explicitly
             i_out = q["i"][0] == "n" and (q["i"][1] < 1 or q["i"][1] > n)
@@ -47,7 +58,7 @@ def case_key(tr, b):
         return "C18:%s:%s" % (q["q"], "unexpected-error" if q["err"] else ("missing-error" if exp["err"] else "wrong-result"))
     if op == "sort":
         # two code paths in the sorter: Lua comparator re-entry and the built-in order
-        return "C18:sort:%s:%s" % (why.split(":")[-1], "default-order" if ev["cmp"]["kind"] in ("lt", "mt") else "comparator")
+        return "C18:sort:%s:%s" % (why.split(":")[-1], "default-order" if ev["cmp"]["kind"] in ("lt", "ltnil", "mt") else "comparator")
     return "C18:%s:%s" % (op, why)
 
 
@@ -55,16 +66,18 @@ def describe(tr, b):
     pos, why, det = b["pos"], b["why"], b["det"]
     v = b
     ev = tr["ev"][pos - 1]
-    call = {k: ev[k] for k in ("op", "pos", "i", "v", "cmp") if k in ev}
+    call = {k: ev[k] for k in ("op", "pos", "i", "v", "cmp", "k", "n", "a", "m") if k in ev}
     s = "history #%d event %d %s: %s (list length before the call %d, raw array %d)" % (
         tr["id"], pos, json.dumps(call), why, v["npre"], tr["ev"][pos - 2]["arr"] if pos > 1 else 0)
     if why == "q":
         q = ev["q"][det["k"] - 1]
-        s += " query %s expected %s" % (json.dumps({k: q[k] for k in q if k != "msg"}), json.dumps(det["exp"]))
+        s += " query %s expected %s" % (json.dumps(q), json.dumps(det["exp"]))
     elif op_is(ev, "sort"):
         s += " out=%s calls=%s list after=%s %s" % (ev["out"], json.dumps(ev["calls"][:4]), json.dumps(ev["rd"][1:v["npre"] + 2]), ev.get("msg", "").split("\n")[0])
     else:
-        s += " returned %s err=%s list after=%s #t=%s" % (json.dumps(ev["res"]), ev["err"], json.dumps(ev["rd"][1:v["npre"] + 3]), ev["len"])
+        s += " returned %s err=%s t[%d..]=%s #t=%s maxn=%s keys outside=%s detail=%s" % (
+            json.dumps(ev["res"]), ev["err"], ev["rdfrom"], json.dumps(ev["rd"][:v["npre"] + 4]), ev["len"], json.dumps(ev["maxn"]),
+            json.dumps(ev["xk"]), json.dumps(det))
     return s
 
 
@@ -96,8 +109,8 @@ def run_histories(hists, par, tag, verd, stats, batch=1500, chunk=25000):
     return sample, n
 
 
-TLC_EV_FIELDS = ("op", "pos", "i", "v", "cmp", "err", "res", "rd", "len", "getn", "maxn", "out", "calls")
-TLC_Q_FIELDS = ("q", "sep", "i", "j", "err", "r", "rs")
+TLC_EV_FIELDS = ("op", "pos", "i", "v", "cmp", "k", "n", "a", "m", "err", "res", "rd", "rdfrom", "xk", "len", "getn", "maxn", "out", "calls")
+TLC_Q_FIELDS = ("q", "sep", "sepb", "i", "j", "err", "r", "rs", "len", "h1", "h2")
 
 
 def slim(t):
@@ -117,7 +130,8 @@ def run_chunk(hists, base, par, tag, verd, stats, batch):
     outp = os.path.join(sd, "traces_%s.ndjson" % tag)
     H = []
     for i, h in enumerate(hists):
-        H.append({"id": h.get("id", base + i + 1), "h": h["h"], "q": h.get("q", "last"), "keys": h.get("keys", []), "mt": h.get("mt", False)})
+        H.append({"id": h.get("id", base + i + 1), "h": h["h"], "q": h.get("q", "last"), "keys": h.get("keys", []), "mt": h.get("mt", False),
+                  "xkeys": h.get("xkeys", []), "dq": h.get("dq", [])})
     with open(inp, "w") as f:
         json.dump(dict(par.obj(), H=H), f)
     vlib.run_harness(["c18-run", "--in", inp, "--out", outp], timeout=900)
@@ -158,6 +172,8 @@ def run_chunk(hists, base, par, tag, verd, stats, batch):
                 stats["stopped"][v["stop"]] = stats["stopped"].get(v["stop"], 0) + 1
             seen = set()
             for b in v["bads"]:
+                if b["why"] == "q" and not b["det"]["exp"].get("sup", True):
+                    raise vlib.Infra("history %s#%d: digest query outside what ConcatDigest defines" % (tag, v["id"]))
                 key = case_key(tr, b)
                 if key in seen:
                     continue            # one candidate per defect class and history
@@ -206,7 +222,7 @@ def build_ops(xs, prep):
 
 AFTER = [{"op": "ins_end", "v": N(7)}, {"op": "rem", "pos": 1}, {"op": "rem_end"}]
 
-NUM_KINDS = [{"kind": k} for k in ("lt", "ltf", "gt", "lt0", "true", "false", "none", "alt")] + \
+NUM_KINDS = [{"kind": k} for k in ("lt", "ltnil", "ltf", "gt", "lt0", "true", "false", "none", "alt")] + \
             [{"kind": "errat", "j": j} for j in (1, 2, 4, 7)]
 OBJ_KINDS = [{"kind": k} for k in ("bykey", "true", "false", "alt", "ltf")]
 MT_KINDS = [{"kind": k} for k in ("mt", "bykey", "none")]
@@ -229,7 +245,7 @@ def sort_cases(tier, rng):
     # strings and mixed element types (the default order fails on mixed pairs)
     for n in range(1, 4 if thorough else 3):
         for seq in itertools.product((["s", "a"], ["s", "b"], ["s", "c"], N(2)), repeat=n):
-            for c in ({"kind": "lt"}, {"kind": "ltf"}, {"kind": "gt"}, {"kind": "false"}):
+            for c in ({"kind": "lt"}, {"kind": "ltnil"}, {"kind": "ltf"}, {"kind": "gt"}, {"kind": "false"}):
                 for prep in ("assign", "tail1"):
                     cases.append({"h": build_ops(list(seq), prep) + [{"op": "sort", "cmp": c}] + AFTER, "q": "none"})
     # objects: distinct identities with equal keys
@@ -274,6 +290,35 @@ def sort_cases(tier, rng):
     return small, cases
 
 
+XKEYS_MC = [["n", 0], ["n", -1], ["f", 1], ["p", 40], ["n", 2], ["n", 3], ["n", 4]]
+XKEYS_SIM = [["n", 0], ["n", -1], ["n", -3], ["f", 1], ["f", 0], ["f", -2], ["p", 40], ["p", 33]] + [["n", i] for i in range(2, 11)]
+
+
+def long_cases(thorough):
+    """Lists around and beyond the default registry size (5120 slots; concat used to push every
+    element and separator): fill, optionally a few list calls, then concat with and without
+    separator, whole list and sub-ranges.  Elements are (a*k)%m, 0 <= value < m."""
+    NIL = ["nil"]
+    cases = []
+    lens = [2555, 2556, 2560, 5120, 30000]
+    for ci, n in enumerate(lens):
+        variants = [(7, 10, [])]
+        if thorough:
+            variants += [(1, 1000, [{"op": "rem_end"}, {"op": "ins_end", "v": N(5)}, {"op": "ins", "pos": 2, "v": N(77)}]),
+                         (3, 7, [{"op": "rem", "pos": 1}, {"op": "set", "i": n, "v": N(123)}])]
+        for a, m, more in variants:
+            n2 = n + sum(1 for o in more if o["op"].startswith("ins") or (o["op"] == "set" and o["i"] == n)) \
+                   - sum(1 for o in more if o["op"].startswith("rem"))
+            dq = [{"sepb": [], "i": NIL, "j": NIL}, {"sepb": [44], "i": NIL, "j": NIL},
+                  {"sepb": [44, 32], "i": N(2), "j": N(n2 - 1)}, {"sepb": [], "i": N(n2 - 2554), "j": NIL},
+                  {"sepb": [45], "i": N(n2), "j": N(n2)}, {"sepb": [44], "i": N(n2 - 1), "j": N(n2 + 1)},
+                  {"sepb": [44], "i": N(0), "j": N(3000)}, {"sepb": [44], "i": N(5), "j": N(4)}]
+            if n > 10000 and not thorough:
+                dq = dq[1:3]
+            cases.append({"h": [{"op": "fill", "n": n, "a": a, "m": m}] + more, "q": "last", "dq": dq})
+    return cases
+
+
 def dedupe_sim(gen):
     """TLC -simulate evaluates the export on every successor it generates; keep
     one full-length history per prefix (a deterministic choice)."""
@@ -301,6 +346,7 @@ def run(tier):
     # 1. MC: the reference transcription agrees with ListLib; sort laws
     mc = []
     runs = [("ListMC", {"MaxLen": 5 if thorough else 4, "MaxHist": 99})]
+    runs.append(("ListMC_ex", {"MaxLen": 3 if thorough else 2, "MaxHist": 99}))
     if thorough:
         runs.append(("ListMC_nosort", {"MaxLen": 6, "MaxHist": 99}))
     for cfg, consts in runs:
@@ -354,16 +400,43 @@ def run(tier):
         raise vlib.Infra("ListSim produced only %d histories" % len(hs))
     for h in hs:
         distinct.add(vlib.canon_hash(h))
-    smp, n = run_histories([{"h": h, "q": "all"} for h in hs], Params(W=11, QA=(0, 1), QR=(0, 1, 2)), "sim", verd, stats, batch=40 if not thorough else 120)
+    smp, n = run_histories([{"h": h, "q": "all", "xkeys": XKEYS_SIM} for h in hs], Params(W=11, QA=(0, 1), QR=(0, 1, 2)), "sim", verd, stats, batch=40 if not thorough else 120)
     total += n
     samples.append({"kind": "simulated", "history_prefix": hs[0][:8]})
     vlib.log("[C18] SIM: %d random histories of 30 calls (TLC -simulate, seed %d) replayed and validated" % (n, seed))
+    # 3b. GEN with numeric keys outside the list (setx: 0, -1, 1.5, 2^40, keys beyond a hole) mixed with list calls
+    xdepth = 4 if thorough else 3
+    r = vlib.run_tlc("ListMC", "ListGenX", consts={"MaxLen": 2, "MaxHist": xdepth}, timeout=1500, workers=8)
+    stats["states"] += r.distinct
+    stats["transitions"] += r.generated
+    hs = sorted((g["h"] for g in r.tag("GEN")), key=lambda h: (len(h), json.dumps(h, sort_keys=True)))
+    nallx = len(hs)
+    hists = []
+    for i, h in enumerate(hs):
+        if not any(o["op"] == "setx" for o in h):
+            continue                    # without setx: family 2
+        if (i + seed) % (12 if not thorough else (1 if len(h) < xdepth else 40)) != 0:
+            continue
+        hists.append({"h": h, "q": "last", "id": i + 1, "xkeys": XKEYS_MC})
+        distinct.add(vlib.canon_hash(h))
+    smp, n = run_histories(hists, Params(W=7), "genx", verd, stats, batch=480)
+    total += n
+    samples.append({"kind": "keys-outside-the-list", "history": [{k: e[k] for k in ("op", "pos", "i", "v", "k", "cmp", "res", "rd", "xk", "len", "maxn") if k in e} for e in smp["ev"]]})
+    vlib.log("[C18] GENX: %d of the %d histories of depth <= %d with assignments to numeric keys outside the list replayed and validated" % (n, nallx, xdepth))
+    # 3c. long lists (beyond the registry size): concat compared by length + hashes (ListLib!ConcatDigest)
+    longs = long_cases(thorough)
+    for c in longs:
+        distinct.add(vlib.canon_hash([c["h"], c["dq"]]))
+    _, n = run_histories(longs, Params(W=7), "long", verd, stats, batch=3)
+    total += n
+    vlib.log("[C18] LONG: %d long-list histories (lengths %s) with %d digest-compared concat calls validated" % (
+        n, sorted({c["h"][0]["n"] for c in longs}), sum(len(c["dq"]) for c in longs)))
     # 4. sort cases
     rng = random.Random(seed * 7919 + 18)
     cases, big = sort_cases(tier, rng)
     for c in cases + big:
         distinct.add(vlib.canon_hash([c["h"], c.get("keys"), c.get("mt")]))
-    smp, n = run_histories(cases, Params(W=9), "sort", verd, stats, batch=2500)
+    smp, n = run_histories(cases, Params(W=9), "sort", verd, stats, batch=2100)
     total += n
     nsmall = n
     _, n = run_histories(big, Params(W=56), "sortbig", verd, stats, batch=60 if not thorough else 150)
@@ -386,11 +459,13 @@ def run(tier):
         "distinct_nontrivial": len(distinct),
         "rule": "histories = every path of ListRef's state graph to depth 4 (quick: without those ending in an assignment or sort(>) or starting with a no-op on the empty table; thorough: plus a seeded quarter of depth %d; one fresh value per depth, list length <= 4), "
                 "TLC -simulate histories of 30 calls (list length <= 8), and sort cases = all sequences over 3 values up to length "
-                "%d x comparators x constructions plus seeded longer lists; distinct by canonical hash of the call list" % (depth, 5 if thorough else 4),
+                "%d x comparators x constructions plus seeded longer lists; plus histories of ListRef with setx (keys outside the list) to depth 3-4 and fill+concat histories on lists of 2555..30000 elements; distinct by canonical hash of the call list" % (depth, 5 if thorough else 4),
         "samples": samples, "mc_runs": mc, "exhaustive": False,
         "known_findings_hit": sorted(verd.known_hit),
     }, time.time() - t0, len(verd.violations), assumptions=[
-        "lists only: every call keeps t a proper list (1<=pos<=n+1 for insert, 1<=pos<=n for remove, assignments to t[1..n+1], t[n]=nil); tables with interior holes are not judged",
+        "every library call is made on a proper list (1<=pos<=n+1 for insert, 1<=pos<=n for remove, assignments to t[1..n+1], t[n]=nil), possibly with numeric keys outside it (0, negative, i+0.5, 2^e); "
+        "while a positive integer key beyond a hole exists #t is ambiguous: only reads, maxn, # being a border and explicit concat/unpack ranges are judged, list calls resume when it is cleared",
+        "concat of long lists (2555..30000 elements of non-negative integers) is compared by length and two 15-bit polynomial hashes of the bytes, both sides defined by ListLib!ConcatDigest",
         "table.remove on an empty list may return nothing or nil (the manual is silent)",
         "error message texts are not compared, only whether a call raises",
         "elements are small integers, one-letter strings, true and tables; number formatting in concat is not exercised beyond integers",
@@ -460,7 +535,7 @@ def selftest():
         mut(lambda ev: ev[2]["rd"].__setitem__(2, N(9)), "rd"),
         mut(lambda ev: ev[3].__setitem__("res", [N(9)]), "res"),
         mut(lambda ev: ev[1].__setitem__("len", 3), "len"),
-        mut(lambda ev: ev[1].__setitem__("maxn", 0), "maxn"),
+        mut(lambda ev: ev[1].__setitem__("maxn", ["n", 0]), "maxn"),
         mut(lambda ev: ev[0].__setitem__("err", True), "err"),
         mut(swap_sorted, "sort:order"),
         mut(lambda ev: ev[4]["rd"].__setitem__(2, ev[4]["rd"][1]), "sort:perm"),
